@@ -3,6 +3,7 @@ C11 — message verification enforces the declared schema.
 -/
 import IdpyVerif.Model.MsgVerify
 import IdpyVerif.Gen.Schemas
+import IdpyVerif.Model.MsgRules
 namespace Idpy.Props.C11
 open Idpy Idpy.Msg Idpy.MsgVerify
 
@@ -133,5 +134,140 @@ theorem wrong_type_rejected :
     (∀ b, deserDict .int (.bool b) = some none) ∧ (∀ n, deserDict .bool (.int n) = some none) ∧
     (∀ n, deserDict .listStr (.int n) = some none) := by
   refine ⟨fun _ => rfl, fun _ => rfl, fun _ => rfl, fun _ => rfl, fun _ => rfl⟩
+
+/-! ### the cross-parameter rules: what acceptance means, for every input of the rule -/
+section rules
+open Idpy.MsgRules Idpy.Wire
+
+theorem containsSub_sound (n : Str) (h : Str) (hc : containsSub n h = true) : ∃ a b, h = a ++ n ++ b := by
+  induction h with
+  | nil =>
+    have : n = [] := by simpa [containsSub] using hc
+    exact ⟨[], [], by simp [this]⟩
+  | cons c cs ih =>
+    simp only [containsSub, Bool.or_eq_true] at hc
+    rcases hc with hp | hr
+    · -- a prefix
+      have key : ∀ (x y : Str), isPrefix x y = true → ∃ b, y = x ++ b := by
+        intro x
+        induction x with
+        | nil => intro y _; exact ⟨y, rfl⟩
+        | cons a as iha =>
+          intro y hy
+          cases y with
+          | nil => simp [isPrefix] at hy
+          | cons b bs =>
+            simp only [isPrefix, Bool.and_eq_true, beq_iff_eq] at hy
+            obtain ⟨b', hb'⟩ := iha bs hy.2
+            exact ⟨b', by rw [hy.1, hb']; rfl⟩
+      obtain ⟨b, hb⟩ := key n (c :: cs) hp
+      exact ⟨[], b, by simpa using hb⟩
+    · obtain ⟨a, b, hab⟩ := ih hr
+      exact ⟨c :: a, b, by rw [hab]; simp⟩
+
+/-- provider metadata: accepted ⇒ whenever ANY supported response type involves the code there is a token endpoint -/
+theorem provider_configuration_accept (scopes : Option (List Str)) (https allow : Bool) (authAlgs : Option (List Str))
+    (idAlgs : List Str) (plain : Bool) (rts : List Str) (tep : Bool)
+    (h : providerConfiguration scopes https allow authAlgs idAlgs plain rts tep = true) :
+    (∀ s, scopes = some s → lit "openid" ∈ s) ∧ (allow = true ∨ https = true) ∧
+    (∀ a, authAlgs = some a → lit "none" ∉ a) ∧ (∃ a ∈ idAlgs, lowerAscii a ≠ lit "none") ∧ plain = true ∧
+    ((∃ rt ∈ rts, containsSub (lit "code") rt = true) → tep = true) := by
+  simp only [providerConfiguration, Bool.and_eq_true, Bool.or_eq_true, Bool.not_eq_true'] at h
+  obtain ⟨⟨⟨⟨⟨h1, h2⟩, h3⟩, h4⟩, h5⟩, h6⟩ := h
+  refine ⟨?_, h2, ?_, ?_, h5, ?_⟩
+  · intro s hs; subst hs; simpa using h1
+  · intro a ha; subst ha; simpa using h3
+  · obtain ⟨a, ha, hne⟩ := List.any_eq_true.mp h4
+    exact ⟨a, ha, by simpa using hne⟩
+  · rintro ⟨rt, hrt, hc⟩
+    rcases h6 with h6 | h6
+    · have := List.any_eq_false.mp h6 rt hrt
+      simp [hc] at this
+    · exact h6
+
+/-- OIDC authorization request: accepted ⇒ the four rules -/
+theorem oidc_authorization_request_accept (rt : List Str) (nonce : Bool) (scope : List Str) (prompt : Option (List Str))
+    (h : oidcAuthorizationRequest rt nonce scope prompt = true) :
+    (lit "id_token" ∈ rt → nonce = true) ∧ lit "openid" ∈ scope ∧
+    (lit "offline_access" ∈ scope → ∃ p, prompt = some p ∧ lit "consent" ∈ p) ∧
+    (∀ p, prompt = some p → lit "none" ∈ p → p.length ≤ 1) := by
+  simp only [oidcAuthorizationRequest, Bool.and_eq_true, Bool.or_eq_true, Bool.not_eq_true'] at h
+  obtain ⟨⟨⟨h1, h2⟩, h3⟩, h4⟩ := h
+  refine ⟨?_, by simpa using h2, ?_, ?_⟩
+  · intro hin
+    rcases h1 with h1 | h1
+    · simp [hin] at h1
+    · exact h1
+  · intro hin
+    rcases h3 with h3 | h3
+    · simp [hin] at h3
+    · cases prompt with
+      | none => simp at h3
+      | some p => exact ⟨p, rfl, by simpa using h3⟩
+  · intro p hp hnone
+    subst hp
+    have h4' : (!(p.contains (lit "none") && decide (p.length > 1))) = true := h4
+    have hn : p.contains (lit "none") = true := by simpa using hnone
+    rw [hn] at h4'
+    simp at h4'
+    exact h4'
+
+theorem client_metadata_accept (gt : List Str) (ru : Bool) (h : clientMetadata gt ru = true) :
+    (lit "authorization_code" ∈ gt ∨ lit "implicit" ∈ gt) → ru = true := by
+  intro hin
+  simp only [clientMetadata, Bool.or_eq_true, Bool.not_eq_true'] at h
+  rcases h with h | h
+  · have := List.any_eq_false.mp h
+    rcases hin with hin | hin
+    · have := this _ hin; simp at this
+    · have := this _ hin; simp at this
+  · exact h
+
+theorem registration_accept (il : Option Bool) (ps : List (Bool × Bool)) (n : Bool) (h : registrationRequest il ps n = true) :
+    il ≠ some false ∧ (∀ p ∈ ps, p.2 = true → p.1 = true) ∧ n = false := by
+  simp only [registrationRequest, Bool.and_eq_true, Bool.not_eq_true'] at h
+  obtain ⟨⟨h1, h2⟩, h3⟩ := h
+  refine ⟨by intro hc; simp [hc] at h1, ?_, h3⟩
+  intro p hp henc
+  have := List.all_eq_true.mp h2 p hp
+  simpa [henc] using this
+
+theorem registration_response_accept (u a : Bool) (h : registrationResponse u a = true) : u = a := by
+  simpa [registrationResponse] using h
+
+theorem id_token_audience_accept (aud : List Str) (azp me : Option Str) (h : idTokenAudience aud azp me = true) :
+    (∀ m, me = some m → m ∈ aud) ∧ (aud.length > 1 → ∃ a, azp = some a ∧ a ∈ aud) ∧ (∀ a m, azp = some a → me = some m → a = m) := by
+  simp only [idTokenAudience, Bool.and_eq_true] at h
+  obtain ⟨⟨h1, h2⟩, h3⟩ := h
+  refine ⟨?_, ?_, ?_⟩
+  · intro m hm; subst hm; simpa using h1
+  · intro hl
+    simp only [hl, ↓reduceIte] at h2
+    cases azp with
+    | none => simp at h2
+    | some a => exact ⟨a, rfl, by simpa using h2⟩
+  · intro a m ha hm; subst ha; subst hm; simpa using h3
+
+theorem logout_token_accept (nonce : Bool) (keys : List Str) (ev sub sid : Bool) (aud : List Str) (wa : Option Str) (iss : Str) (wi : Option Str)
+    (h : logoutToken nonce keys ev sub sid aud wa iss wi = true) :
+    nonce = false ∧ keys = [lit "http://schemas.openid.net/event/backchannel-logout"] ∧ ev = true ∧ (sub = true ∨ sid = true) ∧
+    (∀ a, wa = some a → a ∈ aud) ∧ (∀ i, wi = some i → i = iss) := by
+  simp only [logoutToken, Bool.and_eq_true, Bool.not_eq_true', Bool.or_eq_true] at h
+  obtain ⟨⟨⟨⟨h1, h2⟩, h3⟩, h4⟩, h5⟩ := h
+  refine ⟨h1, ?_, ?_, h3, ?_, ?_⟩
+  · match keys, h2 with
+    | [k], h2 => simp only [Bool.and_eq_true, beq_iff_eq] at h2; rw [h2.1]
+  · match keys, h2 with
+    | [k], h2 => simp only [Bool.and_eq_true] at h2; exact h2.2
+  · intro a ha; subst ha; simpa using h4
+  · intro i hi; subst hi; simpa using h5
+
+/-- the truth table is not vacuous: each rule has accepting and refusing inputs -/
+example : providerConfiguration none true false none [lit "RS256"] true [lit "code id_token"] false = false := by decide
+example : providerConfiguration none true false none [lit "RS256"] true [lit "id_token"] false = true := by decide
+example : oidcAuthorizationRequest [lit "code", lit "id_token"] false [lit "openid"] none = false := by decide
+example : oidcAuthorizationRequest [lit "code"] false [lit "openid"] none = true := by decide
+
+end rules
 
 end Idpy.Props.C11
